@@ -1,7 +1,8 @@
 (* C01 and C04 for object graphs.  For EVERY graph of structs whose fields are integers of any
    Go kind, booleans, strings, float64s, byte slices, timestamps, pointers to structs, typed
-   lists of any of these (lists of lists, lists of pointers included) and maps with string or
-   integer keys and any of these as values - any number of objects, any depth, with arbitrary
+   lists of any of these (lists of lists, lists of pointers included), maps with string or
+   integer keys and any of these as values, and structs held by value (struct-typed fields,
+   []T, map[K]T) - any number of objects, any depth, with arbitrary
    sharing of objects and cycles - what the encoder model
    writes, the decoder model reads back as the same graph: every object becomes one heap cell
    holding the same values under the same field names (a float64 as the same number, a
@@ -32,10 +33,10 @@ Theorem C01_graph_roundtrip : forall nm F te tm ty_of v t st st',
          (* as a struct field of Go type t *)
          R_rf (readers_at te tm f) t dst (bs ++ rest) = Ok (d, rest, dst') /\
          (* as a value on its own (top level, stream) *)
-         (forall a ty fs, v = VStruct a ty fs -> R_rd (readers_at te tm f) dst (bs ++ rest) = Ok (d, rest, dst')) /\
+         (forall a ty fs, v = VStruct a ty fs -> a <> 0 -> R_rd (readers_at te tm f) dst (bs ++ rest) = Ok (d, rest, dst')) /\
          (* as a list element or map key/value of static type t: ReadData, then SetValue into t *)
          (t <> TIface -> elem_pos_ok nm v ->
-            exists d0, R_rd (readers_at te tm f) dst (bs ++ rest) = Ok (d0, rest, dst') /\ forall heap, set_value te heap t d0 = Ok d)).
+            exists d0, R_rd (readers_at te tm f) dst (bs ++ rest) = Ok (d0, rest, dst') /\ set_value te (dheap dst') t d0 = Ok d)).
 Proof. intros nm F te tm ty_of v. exact (graph_roundtrip nm F te tm ty_of v). Qed.
 Print Assumptions C01_graph_roundtrip.
 
@@ -177,6 +178,43 @@ Proof.
       * repeat constructor.
       * repeat constructor; cbn; intuition discriminate.
       * repeat constructor; try (unfold valid_rune; lia); try (unfold in_kind; cbn; lia).
+    + no_unknown_fields.
+  - eexists. split; [vm_compute; reflexivity|]. split; [split; vm_compute; discriminate|].
+    eexists. split; vm_compute; reflexivity.
+Qed.
+
+(* ... and with structs held by value: &B{Items: []I{{1},{2}}} *)
+Definition wB : name := [66].
+Definition wI : name := [73].
+Definition wty : name := [91; 93; 73].                         (* "[]I" *)
+Definition wltn : name := [91; 73].                            (* "[I" *)
+Definition wnm : namemap := [(wB, wB); (wI, wI); (wty, wltn)].
+Definition wte : tenv := [(wB, [([76], TSlice (TStruct wI))]); (wI, [([86], TInt KInt32)])].
+Definition wtm : typmap := [(wB, TStruct wB); (wI, TStruct wI); (wltn, TSlice (TStruct wI))].
+Definition wF (c : name) : list name := if name_eqb c wB then [[108]] else [[118]].
+Definition wv : gval := VStruct 1 wB [([76], VSlice 0 wty [VStruct 0 wI [([86], VInt KInt32 1)]; VStruct 0 wI [([86], VInt KInt32 2)]])].
+Example C01_graph_byvalue_nonvacuous :
+  sgv wnm wF wte wtm (fun _ => wB) (TPtr (TStruct wB)) wv /\
+  exists st', write_data wv (estate0 wnm) = Ok st' /\ small st' /\
+    exists dst', decode wte wtm (ebytes st') = Ok (DPtr 0 wB, [], dst') /\
+      nth_error (dheap dst') 0 = Some (RObj wB (Some [([76], DSlice (TStruct wI) [DStructV wI [([86], DInt KInt32 1)]; DStructV wI [([86], DInt KInt32 2)]])])).
+Proof.
+  assert (SI : forall z, -100 <= z <= 100 -> sgv wnm wF wte wtm (fun _ => wB) (TStruct wI) (VStruct 0 wI [([86], VInt KInt32 z)])).
+  { intros z Hz. eapply (sg_structv wnm wF wte wtm (fun _ => wB) wI _ wI); try reflexivity; try (cbn; lia).
+    - repeat constructor; unfold valid_rune; lia.
+    - repeat constructor; unfold valid_rune; lia.
+    - known_fields. constructor. unfold in_kind; cbn; lia.
+    - no_unknown_fields. }
+  split.
+  - eapply (sg_struct wnm wF wte wtm (fun _ => wB) 1 wB _ wB); try reflexivity; try lia.
+    + repeat constructor; unfold valid_rune; lia.
+    + repeat constructor; unfold valid_rune; lia.
+    + cbn; lia.
+    + known_fields.
+      eapply (sg_slice wnm wF wte wtm (fun _ => wB) wty _ (TStruct wI) wltn); try reflexivity; try discriminate; try (cbn; lia).
+      * repeat constructor; unfold valid_rune; lia.
+      * constructor; [apply SI; lia|]. constructor; [apply SI; lia|constructor].
+      * repeat constructor.
     + no_unknown_fields.
   - eexists. split; [vm_compute; reflexivity|]. split; [split; vm_compute; discriminate|].
     eexists. split; vm_compute; reflexivity.
